@@ -19,4 +19,7 @@ core::RunResult run_pending(const core::Plan &plan, bool log);
 core::Plan gen_tree(uint64_t seed, bool thorough);
 core::RunResult run_tree(const core::Plan &plan, bool log);
 
+core::Plan gen_auth(uint64_t seed, bool thorough);
+core::RunResult run_auth(const core::Plan &plan, bool log);
+
 }  // namespace libchecks
